@@ -1139,6 +1139,9 @@ impl C16 {
                                                     _ => None,
                                                 })
                                                 .collect();
+                                            // per model (in the order the models were fitted): what the scorer returned for its
+                                            // held-out rows and for its training rows
+                                            let mut per_model: Vec<(u64, u64)> = vec![];
                                             for f in 0..k.min(tests.len()) {
                                                 let expect = |ids: &Vec<usize>| -> (Vec<f64>, Vec<f64>) {
                                                     (
@@ -1146,25 +1149,35 @@ impl C16 {
                                                         ids.iter().map(|i| (f as f64 + 1.0) * FOLD_BASE + *i as f64).collect(),
                                                     )
                                                 };
-                                                for (which, ids, got) in [("test", &tests[f], test_score[f]), ("train", &trains[f], train_score[f])] {
+                                                let mut rets = [0u64; 2];
+                                                for (slot, (which, ids)) in [("test", &tests[f]), ("train", &trains[f])].into_iter().enumerate() {
                                                     let (et, ep) = expect(ids);
-                                                    let found = scores.iter().find(|s| *s.0 == et && *s.1 == ep);
-                                                    match found {
+                                                    match scores.iter().find(|s| *s.0 == et && *s.1 == ep) {
                                                         None => rep.fail(
                                                             "score-args",
                                                             opname,
                                                             format!("{}: fold {}: the scorer was never called with the {} targets of rows {:?} and the fold model's predictions for exactly those rows", ctx, f, which, clip(ids)),
                                                         ),
-                                                        Some(s) => {
-                                                            if s.2 != got {
-                                                                rep.fail(
-                                                                    "score-misplaced",
-                                                                    opname,
-                                                                    format!("{}: {}_score[{}] = {} but the scorer returned {} for that fold's {} rows", ctx, which, f, got, s.2, which),
-                                                                );
-                                                            }
-                                                        }
+                                                        Some(s) => rets[slot] = s.2.to_bits(),
                                                     }
+                                                }
+                                                per_model.push((rets[0], rets[1]));
+                                            }
+                                            // the result must hold exactly these (test, train) pairs, each model's two scores at one
+                                            // position; which position a fold gets is not stated by the property (an implementation that
+                                            // visits the folds in another order and files the scores under the splitter's fold number
+                                            // is as right as one that files them in the order of fitting)
+                                            if rep.violation.is_none() {
+                                                let mut got: Vec<(u64, u64)> = (0..k).map(|i| (test_score[i].to_bits(), train_score[i].to_bits())).collect();
+                                                let mut want = per_model.clone();
+                                                got.sort_unstable();
+                                                want.sort_unstable();
+                                                if got != want {
+                                                    rep.fail(
+                                                        "score-misplaced",
+                                                        opname,
+                                                        format!("{}: test_score = {:?}, train_score = {:?}, but the scorer returned (test, train) = {:?} for the models in the order they were fitted: the result does not pair every model's two scores at one position", ctx, test_score, train_score, per_model.iter().map(|p| (f64::from_bits(p.0), f64::from_bits(p.1))).collect::<Vec<_>>()),
+                                                    );
                                                 }
                                             }
                                         }
